@@ -21,6 +21,7 @@ func init() {
 			{ID: "C07.R5", Floor: 5, Doc: "coalescer accounting: exactly one result per pending writer on every path; success only under the fully-written guard; remaining counter zeroed after a cut buffer", Run: c07r5},
 			{ID: "C07.R6", Floor: 1, Doc: "exec: write-error exits release (not started) or close the connection", Run: c07r6},
 			{ID: "C07.R7", Floor: 2, Doc: "sticky failure: each socket write is guarded by the writer's recorded-failure state, which is set on a write error", Run: c07r7},
+			{ID: "C07.R8", Floor: 1, Doc: "net.Buffers.WriteTo consumes its receiver: it runs on a private copy, the per-request accounting reads the untouched original", Run: c07r8},
 		},
 	})
 }
@@ -942,5 +943,61 @@ func c07r7(p *Program, r *Report) {
 	}
 	if n == 0 {
 		r.Unresolved("no socket write sites in writer methods")
+	}
+}
+
+// c07r8: (*net.Buffers).WriteTo advances and nils the elements of the slice it is called on. The coalescer's
+// accounting loop attributes the written byte count to the queued frames by their lengths, so WriteTo must be
+// called on a copy (make + copy) that shares no backing array with the slice the accounting iterates.
+func c07r8(p *Program, r *Report) {
+	n := 0
+	p.forEachFunc(false, func(fi *FuncInfo) {
+		if fi.Pkg != p.Root || fi.Decl.Body == nil {
+			return
+		}
+		info := fi.Pkg.TypesInfo
+		for _, c := range callsIn(fi.Decl.Body) {
+			if calleeName(info, c) != "net.(*Buffers).WriteTo" {
+				continue
+			}
+			n++
+			rcv := recvExpr(c)
+			id, ok := ast.Unparen(rcv).(*ast.Ident)
+			private := false
+			why := exprStr(rcv)
+			if ok {
+				if d := localDef(info, fi, id); d != nil && singleAssigned(info, fi.Decl.Body, info.Uses[id]) {
+					why = id.Name + " := " + exprStr(d)
+					if mk, isCall := ast.Unparen(d).(*ast.CallExpr); isCall && exprStr(mk.Fun) == "make" {
+						// filled by copy(id, original)
+						for _, cc := range callsIn(fi.Decl.Body) {
+							if exprStr(cc.Fun) == "copy" && len(cc.Args) == 2 && exprStr(cc.Args[0]) == id.Name {
+								private = true
+							}
+						}
+					}
+				}
+			}
+			// is the original (or the receiver itself) read after the call?
+			readAfter := false
+			ast.Inspect(fi.Decl.Body, func(x ast.Node) bool {
+				if rs, ok := x.(*ast.RangeStmt); ok && rs.Pos() > c.End() {
+					if t := info.TypeOf(rs.X); t != nil && strings.Contains(t.String(), "net.Buffers") || strings.Contains(exprStr(rs.X), "buffers") {
+						readAfter = true
+					}
+				}
+				if ix, ok := x.(*ast.IndexExpr); ok && ix.Pos() > c.End() {
+					if t := info.TypeOf(ix.X); t != nil && t.String() == "net.Buffers" {
+						readAfter = true
+					}
+				}
+				return true
+			})
+			r.Check(private || !readAfter, c, fi.Name+": WriteTo runs on a private copy of the batch", why,
+				"WriteTo is called on `"+why+"`, which shares its backing array with the slice the per-request accounting reads afterwards: WriteTo nils and re-slices the written entries, so the accounting compares wrong lengths and reports torn or unwritten frames as sent")
+		}
+	})
+	if n == 0 {
+		r.Unresolved("no net.Buffers.WriteTo call found")
 	}
 }
